@@ -33,7 +33,9 @@ func c06(c *Ctx) {
 	r.Rule("R06.W", "no variable-length big.Int.Bytes() reaches a fixed-width position (copy left-aligned, constant slice/index, bytes.Equal against a digest, stored as key); fixed-width conversions use the protocol width of their operand", 8)
 	r.Rule("R06.S", "success effects dominate the success exit; fingerprint sent = fingerprint matched = SHA1(PutMessage(n)PutMessage(e))[12:]", 5)
 
-	sites := c.widthSites(func(f *ssa.Function) bool { return pkgIn(f, load.RootMod, load.IgePkg, load.MathPkg, load.KeysPkg, load.TLPkg) })
+	sites := c.widthSites(func(f *ssa.Function) bool {
+		return pkgIn(f, load.RootMod, load.IgePkg, load.MathPkg, load.KeysPkg, load.TLPkg)
+	})
 	c.reportWidth("R06.W", sites)
 	if f := c.P.Func(load.MathPkg, "", "BigIntFixedBytes"); f != nil {
 		c.checkPadHelper("R06.W", f)
